@@ -78,6 +78,13 @@ def specs(thorough):
                 for seg in ("whole", "marks"):
                     for dc in (True, False):
                         out.append((size, coding, ("chunked", "1-rest", False, False, te), seg, dc))
+    # other well-formed spellings of the chunk line: bad whitespace around the extension, upper-case hex, leading zeros
+    for size in (5, 70):
+        for coding in ("identity", "gzip"):
+            for ext in ("bws", "bws2", "tab", "upper0"):
+                for seg in ("whole", "marks"):
+                    for dc in (True, False):
+                        out.append((size, coding, ("chunked", "1-7-rest", ext, False), seg, dc))
     # every composition of a tiny identity body into <= 3 chunks
     for size in (1, 2, 5):
         for comp in compositions(size, 3):
